@@ -185,6 +185,23 @@ pub fn build_corpus() -> Vec<Seed> {
             }
         }
     }
+    // the smallest fonts the writer produces: no glyph at all / one glyph (the whole file is header and tables)
+    for (ty, tname) in [(icy_engine::FontType::Outline, "outline"), (icy_engine::FontType::Block, "block"), (icy_engine::FontType::Color, "colour")] {
+        for glyphs in 0..2 {
+            let mut f = TheDrawFont::new("ABCDEFGHIJKL", ty, 1);
+            if glyphs == 1 {
+                f.set_glyph('A', icy_engine::FontGlyph { size: icy_engine::Size::new(2, 1), data: if matches!(ty, icy_engine::FontType::Color) { vec![b'X', 0x1F, b'Y', 0x2E] } else { vec![b'X', b'Y'] } });
+            }
+            if let Ok(b) = f.as_tdf_bytes() {
+                seeds.push(Seed {
+                    api: "tdf".into(),
+                    ext: "tdf".into(),
+                    name: format!("tiny-{tname}-{glyphs}.tdf"),
+                    bytes: b,
+                });
+            }
+        }
+    }
     // palettes
     let mut pal = Palette::dos_default();
     pal.title = "Title".into();
